@@ -54,9 +54,12 @@ def strip_comments(src: str) -> str:
 def grep_forbidden() -> list[str]:
     hits = []
     for p in sorted(LEAN_DIR.rglob("*.lean")):
-        if ".lake" in p.parts:
+        if ".lake" in p.parts or p.name.startswith(".audit_"):
+            continue            # (.audit_*: the temporary `#print axioms` files of concurrently running checks)
+        try:
+            body = strip_comments(p.read_text())
+        except FileNotFoundError:
             continue
-        body = strip_comments(p.read_text())
         for n, line in enumerate(body.split("\n"), 1):
             if FORBIDDEN.search(line):
                 hits.append(f"{p.relative_to(LEAN_DIR)}:{n}: {line.strip()[:100]}")
